@@ -20,7 +20,7 @@ RULE = ("(i) all 64 edge subsets of the 4-node topological order x 24 textual or
         "result names, side-effect-only sinks returning None, forward references), several programs per process; (iii) random EEMS models; "
         "each followed by a random history of 0-8 run()/result/metadata/to_string/validate_params steps; distinct by (n, edge count, "
         "styles used, has-sink, has-colliding-strings, history step kinds)")
-REQUIRED_COUNTERS = ["programs_run", "execute_events", "read_events", "history_steps", "reference_values_compared", "flatten_contract_evaluations"]
+REQUIRED_COUNTERS = ["programs_run", "execute_events", "read_events", "history_steps", "reference_values_compared", "flatten_contract_evaluations", "retry_programs", "grown_programs"]
 EXHAUSTIVE_NOTE = "thorough tier enumerates all 64 x 24 x 3 four-command programs"
 ASSUMPTIONS = ["programs that fail to run are judged elsewhere (C12-C14) unless the program is valid by construction",
                "the order in which independent commands run is not judged", "equality, not identity, of fed values is demanded"]
@@ -64,7 +64,7 @@ def finish(ctx):
 
 
 # ---------------------------------------------------------------- abstract DAG programs over vprobe
-def gen_dag(rng, n=None):
+def gen_dag(rng, n=None, flaky=False):
     n = n or rng.randint(1, 14)
     nodes = []
     for i in range(n):
@@ -87,6 +87,9 @@ def gen_dag(rng, n=None):
             continue
         if rng.random() < 0.12:
             nodes.append({"name": name, "kind": "Sink", "L": [rng.choice(prev) for _ in range(rng.randint(1, 3))]})
+            continue
+        if flaky and not any(nd["kind"] == "Flaky" for nd in nodes) and rng.random() < 0.35:
+            nodes.append({"name": name, "kind": "Flaky", "L": [rng.choice(prev) for _ in range(rng.randint(0, 2))]})
             continue
         node = {"name": name, "kind": "Op"}
         k = rng.randint(1, 5)
@@ -154,6 +157,8 @@ def to_text(nodes, order):
             lines.append("%s = Src(V = %d)" % (nd["name"], nd["V"]))
         elif nd["kind"] == "Sink":
             lines.append("%s = Sink(L = %s)" % (nd["name"], _fmt(nd["L"])))
+        elif nd["kind"] == "Flaky":
+            lines.append("%s = Flaky(L = %s)" % (nd["name"], _fmt(nd["L"])))
         elif nd["kind"] == "Num":
             lines.append("%s = Num(V = %s)" % (nd["name"], nd["V"]))
         elif nd["kind"] == "TypedOp":
@@ -182,6 +187,8 @@ def reference(nodes):
                 memo[name] = ("src", name, nd["V"])
             elif nd["kind"] == "Sink":
                 memo[name] = None
+            elif nd["kind"] == "Flaky":
+                memo[name] = ("flaky", name, (("L", deep(nd["L"])),))
             elif nd["kind"] == "Num":
                 memo[name] = nd["V"]
             elif nd["kind"] == "TypedOp":
@@ -233,6 +240,21 @@ def cases(ctx):
         order = list(range(len(nodes)))
         rng.shuffle(order)
         yield {"kind": "dag", "nodes": nodes, "order": order, "history": _gen_history(rng, len(nodes))}
+    for i in range(ctx.n(150, 8000)):
+        nodes = gen_dag(rng, n=rng.randint(3, 10), flaky=True)
+        if not any(nd["kind"] == "Flaky" for nd in nodes):
+            continue
+        order = list(range(len(nodes)))
+        rng.shuffle(order)
+        yield {"kind": "retry", "nodes": nodes, "order": order, "history": _gen_history(rng, len(nodes))}
+    for i in range(ctx.n(150, 8000)):
+        nodes = gen_dag(rng, n=rng.randint(2, 8))
+        order = list(range(len(nodes)))
+        rng.shuffle(order)
+        extra = []
+        for k in range(rng.randint(1, 3)):
+            extra.append({"name": "X%d" % k, "kind": "Op", "L": [rng.choice([nd["name"] for nd in nodes] + [e["name"] for e in extra]) for _ in range(rng.randint(1, 3))]})
+        yield {"kind": "grow", "nodes": nodes, "order": order, "extra": extra, "history": _gen_history(rng, len(nodes))}
     for i in range(ctx.n(250, 12000)):
         m = models.gen_model(rng, n_ops=rng.randint(1, 10), sinks=True, metadata=rng.random() < 0.3, libs="nc" if i % 3 == 0 else "csv")
         m = models.permuted(m, rng)
@@ -334,6 +356,10 @@ def run_case(ctx, case):
         return
     if case["kind"] == "eems":
         return run_eems(ctx, case)
+    if case["kind"] == "retry":
+        return run_retry(ctx, case)
+    if case["kind"] == "grow":
+        return run_grow(ctx, case)
     nodes = case["nodes"]
     text = to_text(nodes, case["order"])
     names = [nd["name"] for nd in nodes]
@@ -405,3 +431,111 @@ def run_eems(ctx, case):
         return
     kinds = run_history(ctx, prog, names, returned, case["history"], "eems", detail)
     ctx.feature(("eems", len(names), tuple(sorted(set(kinds)))))
+
+
+def run_retry(ctx, case):
+    """A run in which one command fails, the cause is repaired, and the program is run again: afterwards every command has
+    executed successfully exactly once (what finished in the first run is not executed again), with the values of the graph."""
+    from mpilot.program import Program
+    import vprobe
+    nodes = case["nodes"]
+    text = to_text(nodes, case["order"])
+    names = [nd["name"] for nd in nodes]
+    detail = {"text": text}
+    ctx.count("programs_run")
+    ctx.count("retry_programs")
+    prog = Program.from_source(text, libraries=("vprobe",))
+    vprobe.FLAKY["fail"] = True
+    log1 = trace.start()
+    trace.attach(prog)
+    err = None
+    try:
+        prog.run()
+    except Exception as e:
+        err = e
+    finally:
+        trace.stop()
+        vprobe.FLAKY["fail"] = False
+    from mpilot.exceptions import MPilotError
+    if err is None or not isinstance(err, MPilotError):
+        ctx.fail("retry:failing-command-not-reported", dict(detail, error=repr(err)[:200]))
+        return
+    log2 = trace.start()
+    try:
+        prog.run()
+    except Exception as e:
+        trace.stop()
+        ctx.fail("retry:second-run-fails-%s" % type(e).__name__, dict(detail, error=str(e)[:300]))
+        return
+    finally:
+        trace.stop()
+    ok1 = [e["name"] for e in log1 if e["k"] == "exec_exit"]
+    ok2 = [e["name"] for e in log2 if e["k"] == "exec_exit"]
+    ctx.count("execute_events", len(ok1) + len(ok2))
+    for n in names:
+        cnt = ok1.count(n) + ok2.count(n)
+        if cnt != 1:
+            ctx.fail("retry:%s" % ("never-executed-successfully" if cnt == 0 else "executed-again-after-finishing"),
+                     dict(detail, command=n, successful_executions=cnt, kind=[nd["kind"] for nd in nodes if nd["name"] == n][0]))
+            return
+    want = reference(nodes)
+    ctx.count("reference_values_compared", len(names))
+    for n in names:
+        c = prog.commands[n]
+        if not c.is_finished or c._result != want[n]:
+            ctx.fail("retry:value-differs-from-graph-evaluation", dict(detail, command=n, got=repr(c._result)[:200], want=repr(want[n])[:200], finished=c.is_finished))
+            return
+    ctx.feature(("retry", len(nodes), len(ok1), len(ok2)))
+
+
+def run_grow(ctx, case):
+    """run(), then commands are added through add_command, then run() again: the new commands execute once, fed by the finished
+    results of the old ones, and nothing old executes again."""
+    from mpilot.program import Program
+    nodes = case["nodes"]
+    text = to_text(nodes, case["order"])
+    names = [nd["name"] for nd in nodes]
+    detail = {"text": text, "added": case["extra"]}
+    ctx.count("programs_run")
+    ctx.count("grown_programs")
+    prog = Program.from_source(text, libraries=("vprobe",))
+    log1 = trace.start()
+    trace.attach(prog)
+    try:
+        prog.run()
+    except Exception as e:
+        trace.stop()
+        ctx.fail("dag:valid-program-does-not-run:%s" % type(e).__name__, dict(detail, error=str(e)[:300]))
+        return
+    finally:
+        trace.stop()
+    cls = prog.find_command_class("Op")
+    for e in case["extra"]:
+        prog.add_command(cls, e["name"], {"L": list(e["L"])})
+    log2 = trace.start()
+    trace.attach(prog)
+    try:
+        prog.run()
+    except Exception as e:
+        trace.stop()
+        ctx.fail("grow:run-after-add_command-fails-%s" % type(e).__name__, dict(detail, error=str(e)[:300]))
+        return
+    finally:
+        trace.stop()
+    ex2 = [e["name"] for e in log2 if e["k"] == "exec_enter"]
+    ctx.count("execute_events", len(ex2))
+    again = [n for n in ex2 if n in names]
+    if again:
+        ctx.fail("grow:old-command-executed-again", dict(detail, executed=again[:5]))
+        return
+    want = reference(nodes + case["extra"])
+    for e in case["extra"]:
+        c = prog.commands[e["name"]]
+        if ex2.count(e["name"]) != 1 or not c.is_finished:
+            ctx.fail("grow:added-command-not-executed-by-run", dict(detail, command=e["name"], executions=ex2.count(e["name"])))
+            return
+        if c._result != want[e["name"]]:
+            ctx.fail("grow:added-command-fed-wrong-values", dict(detail, command=e["name"], got=repr(c._result)[:200], want=repr(want[e["name"]])[:200]))
+            return
+    ctx.count("reference_values_compared", len(case["extra"]))
+    ctx.feature(("grow", len(nodes), len(case["extra"])))
